@@ -283,6 +283,19 @@ pub fn first_diff<'a>(expected: &'a Obs, real: &'a Obs) -> Option<(&'a str, &'a 
     None
 }
 
+/// Every probe on which `real` differs from what `expected` pins down: (probe, wanted, got)
+pub fn all_diffs(expected: &Obs, real: &Obs) -> Vec<(String, String, String)> {
+    let mut out = vec![];
+    for (k, v) in expected {
+        match real.get(k) {
+            Some(r) if r == v => {}
+            Some(r) => out.push((k.clone(), v.clone(), r.clone())),
+            None => out.push((k.clone(), v.clone(), "<probe missing>".to_string())),
+        }
+    }
+    out
+}
+
 /// All probes on which two real observations differ (both directions)
 pub fn diff_all(before: &Obs, after: &Obs, skip_prefix: &[&str]) -> Vec<(String, String, String)> {
     let mut out = vec![];
